@@ -26,7 +26,14 @@ RULE = ("site x corruption x key type x version, enumerated: proof sites = "
         "(presents A, proves B), proof replayed from another handshake, "
         "scheme the verifier did not offer, proof message replaced by "
         "garbage, wrong password / unknown user / A mod N = 0, wrong PSK "
-        "secret, flipped binder, non-matching fingerprint. Each case has a "
+        "secret, flipped binder, non-matching fingerprint; degenerate "
+        "signature values (DSA/ECDSA (1,0) (0,1) (q,.), RSA 0/1/n-1/n, "
+        "all-zero EdDSA); SRP attacker who sends A = 0 mod N and uses the "
+        "premaster that forces; wrong Finished closing a post-handshake "
+        "authentication whose Certificate/CertificateVerify were valid; "
+        "client identity carried in a ticket the server declines (other "
+        "hash, expired, other version, other key) followed by a full "
+        "handshake without client certificate. Each case has a "
         "positive control (honest run completes and attributes exactly the "
         "presented identity). non-trivial = the corrupted proof reached the "
         "verifier; distinct = (site, key, version, corruption)")
@@ -78,8 +85,55 @@ for _ver in ("tls10", "tls12"):
 for _k in ("c_rsa", "c_ecdsa", "c_ed25519"):
     SITES.append(("cv13_client", "tls13", _k))
     SITES.append(("pha", "tls13", _k))
+    SITES.append(("pha_fin", "tls13", _k))
 CORR = ["none", "flip", "other_key", "replay", "garbage", "unoffered",
-        "resigned_ok"]
+        "resigned_ok", "degenerate0", "degenerate1", "degenerate2",
+        "degenerate3"]
+
+
+def _der_int(n):
+    b = n.to_bytes(max(1, (n.bit_length() + 8) // 8), "big")
+    return b"\x02" + bytes([len(b)]) + b
+
+
+def _der_sig(r, s_):
+    body = _der_int(r) + _der_int(s_)
+    return b"\x30" + bytes([len(body)]) + body
+
+
+def degenerate_sig(key, pub, i):
+    """Classic universal-forgery candidates for each signature scheme."""
+    if key.endswith("dsa") and not key.endswith("ecdsa"):
+        q = pub.q
+        return [_der_sig(1, 0), _der_sig(0, 1), _der_sig(1, q),
+                _der_sig(q + 1, 0)][i]
+    if "ecdsa" in key or key in ("p384",):
+        n = pub.public_key.curve.order
+        return [_der_sig(0, 0), _der_sig(1, 0), _der_sig(n, 1),
+                _der_sig(1, n)][i]
+    if "ed25519" in key:
+        return [bytes(64), b"\x01" + bytes(63), bytes(32) + b"\xff" * 32,
+                b"\xff" * 64][i]
+    # RSA: s = 0, 1, n-1, n
+    k = (len(pub) + 7) // 8
+    n = pub.n
+    return [(0).to_bytes(k, "big"), (1).to_bytes(k, "big"),
+            (n - 1).to_bytes(k, "big"), n.to_bytes(k, "big")][i]
+
+
+def replace_sig(data, new):
+    """Replace the trailing 2-byte-length signature vector of a handshake
+    message and fix the outer length."""
+    body = bytes(data[4:])
+    best = None
+    for off in range(len(body) - 2, -1, -1):
+        ln = int.from_bytes(body[off:off + 2], "big")
+        if ln == len(body) - off - 2 and 30 <= ln <= 600:
+            best = off
+    if best is None:
+        return None
+    nb = body[:best] + len(new).to_bytes(2, "big") + new
+    return bytes([data[0]]) + len(nb).to_bytes(3, "big") + nb
 
 
 def flip_last(data, n=3):
@@ -108,7 +162,7 @@ def run_site(site, ver, key, corr, seed, record=None):
     if ccred:
         cchain, ckey = sc.cred(ccred)
         client["certChain"], client["privateKey"] = cchain, ckey
-        if site != "pha":
+        if site not in ("pha", "pha_fin"):
             server["reqCert"] = True
     prover = "s" if server_side else "c"
     if corr == "other_key":
@@ -131,12 +185,18 @@ def run_site(site, ver, key, corr, seed, record=None):
                 skw, rsaSigHashes=["sha384"], ecdsaSigHashes=["sha384"],
                 dsaSigHashes=["sha384"], more_sig_schemes=[]))
     target_type = {"ske": 12, "cv13_server": 15, "cv_client": 15,
-                   "cv13_client": 15, "pha": 15}[site]
-    state = {"seen": 0}
+                   "cv13_client": 15, "pha": 15, "pha_fin": 20}[site]
+    state = {"seen": 0, "fin": 0}
 
     def fn(dev, idx, ct, data):
         if ct != ContentType.handshake or data[0] != target_type:
             return None
+        if site == "pha_fin":
+            # the valid Certificate and CertificateVerify went out; only the
+            # Finished that closes the post-handshake exchange is wrong
+            state["fin"] += 1
+            if state["fin"] < 2:
+                return None
         state["seen"] += 1
         if record is not None and corr == "none":
             record["msg"] = data
@@ -156,6 +216,13 @@ def run_site(site, ver, key, corr, seed, record=None):
             return [(ct, record["msg"])]
         if corr == "other_key":
             info["reached"] = True
+        if corr.startswith("degenerate"):
+            pub = (chain if server_side else cchain).getEndEntityPublicKey()
+            new = replace_sig(data, degenerate_sig(key, pub, int(corr[-1])))
+            if new is None:
+                return None
+            info["reached"] = True
+            return [(ct, new)]
         if corr in ("unoffered", "resigned_ok"):
             # re-sign the proof with the real key but with a scheme the
             # verifier (SHA-384 only) did not offer; 'resigned_ok' is the
@@ -202,7 +269,7 @@ def run_site(site, ver, key, corr, seed, record=None):
     DET.reseed("C05", site, ver, key, seed)
     p = sc.connect(client, server, prepare=prepare)
     info["seen"] = state["seen"]
-    if site == "pha" and p.both_ok:
+    if site in ("pha", "pha_fin") and p.both_ok:
         # server requests post-handshake authentication
         info["before"] = p.s.session.clientCertChain
         outs, _ = drive({"s": p.s.request_post_handshake_auth()}, p.link,
@@ -290,7 +357,9 @@ def check_sig(case):
     presented = sc.cred(key)[0]
     attr = "serverCertChain" if verifier == "c" else "clientCertChain"
     where = "%s:%s:%s:%s" % (site, ver, key, corr)
-    if site == "pha":
+    if site == "pha_fin" and corr not in ("none", "flip", "garbage"):
+        return good(nt=False, labels=labels + ["not-applicable"])
+    if site in ("pha", "pha_fin"):
         if not p.both_ok:
             if corr == "unoffered":
                 return good(nt=False, labels=labels + ["not-applicable"])
@@ -398,7 +467,27 @@ def check_srp(case):
     def prepare(cc, scn):
         Deviant(cc, fn)
     DET.reseed("C05srp", ver, corr)
-    p = sc.connect(client, server, prepare=prepare)
+    if corr.startswith("atk_"):
+        # an attacker without the password: A = 0 (mod N) forces the
+        # server's premaster secret to 0 - and the attacker knows that
+        import tlslite.keyexchange as kxm
+        from tlslite.utils.cryptomath import numberToByteArray
+        client["password"] = "not-the-password"
+        orig = kxm.SRPKeyExchange.processServerKeyExchange
+        mult = {"atk_a_zero": 0, "atk_a_n": 1, "atk_a_2n": 2}[corr]
+
+        def forged(self, srvPublicKey, serverKeyExchange):
+            orig(self, srvPublicKey, serverKeyExchange)
+            self.A = mult * serverKeyExchange.srp_N
+            state["sent"] = True
+            return numberToByteArray(0)
+        kxm.SRPKeyExchange.processServerKeyExchange = forged
+        try:
+            p = sc.connect(client, server)
+        finally:
+            kxm.SRPKeyExchange.processServerKeyExchange = orig
+    else:
+        p = sc.connect(client, server, prepare=prepare)
     if corr == "none":
         if not p.both_ok or p.s.session.srpUsername != "alice":
             return bad("positive-control-fails:srp:" + ver,
@@ -487,6 +576,88 @@ def check_psk(case):
     return good(labels=labels + ["fallback" if p.both_ok else "rejected"])
 
 
+# -------------------------------------------- identity from old tickets ---
+def check_ticket(case):
+    """An identity learnt on an *earlier* connection (carried inside a
+    session ticket) may be attributed only when that ticket is actually
+    accepted with its binder; a ticket the server declines, followed by a
+    full handshake in which the client proves nothing, must leave
+    clientCertChain empty."""
+    var, v1 = case["var"], case["v1"]
+    labels = ["site=ticket", "var=" + var, "v1=" + v1]
+    keys = [bytearray(b"T" * 32)]
+    s1 = sc.mk_settings(minVersion=sc.VER[v1], maxVersion=sc.VER[v1],
+                        ticketKeys=keys, cipherNames=["aes128gcm"])
+    c1 = sc.mk_settings(minVersion=sc.VER[v1], maxVersion=sc.VER[v1],
+                        cipherNames=["aes128gcm"])
+    DET.reseed("C05ticket", var, v1)
+    p0 = sc.connect({"settings": c1, "cred": "c_rsa"},
+                    {"cred": "rsa", "settings": s1, "reqCert": True})
+    if not p0.both_ok or p0.s.session.clientCertChain is None:
+        raise BaselineBroken("ticket-first-connection", "%r %r" % (p0.co,
+                                                                   p0.so))
+    sc.do_write(p0, "s", b"x")
+    sc.read_all(p0, "c")
+    sess = p0.c.session
+    skw = dict(minVersion=(3, 3), maxVersion=(3, 4), ticketKeys=keys)
+    ckw = dict(minVersion=(3, 3), maxVersion=(3, 4))
+    expect_resume = False
+    if var == "control":
+        expect_resume = True
+        ckw["cipherNames"] = skw["cipherNames"] = ["aes128gcm"]
+        ckw["minVersion"] = ckw["maxVersion"] = sc.VER[v1]
+    elif var == "hash":
+        # the ticket belongs to a SHA-256 session; now only the SHA-384
+        # suite is on offer
+        ckw["cipherNames"] = ["aes256gcm"]
+        ckw["minVersion"] = ckw["maxVersion"] = (3, 4)
+    elif var == "expired":
+        skw["ticketLifetime"] = 3600
+        DET.advance(7200)
+    elif var == "version":
+        # ticket of one version offered in a hello of the other
+        other = (3, 4) if v1 == "tls12" else (3, 3)
+        ckw["minVersion"] = ckw["maxVersion"] = other
+    elif var == "other_key":
+        skw["ticketKeys"] = [bytearray(b"U" * 32)]
+    if case.get("pin") and var in ("expired", "other_key"):
+        ckw["minVersion"] = ckw["maxVersion"] = sc.VER[v1]
+        labels.append("pinned")
+    copts = {"settings": sc.mk_settings(**ckw), "session": sess}
+    sopts = {"cred": "rsa", "settings": sc.mk_settings(**skw),
+             "reqCert": True}
+    try:
+        p = sc.connect(copts, sopts)
+    except ValueError:
+        return good(nt=False, labels=labels + ["session-refused-by-api"])
+    if isinstance(p.co.exc, ValueError):
+        return good(nt=False, labels=labels + ["session-refused-by-api"])
+    if not p.so.ok:
+        labels.append("second-failed")
+        for o in (p.co, p.so):
+            if o.state == "exc" and not isinstance(
+                    o.exc, (BaseTLSException, OSError)):
+                return bad("unrelated-exception:%s@%s" % (
+                    type(o.exc).__name__, exc_site(o.exc)), var,
+                    labels=labels)
+        return good(nt=False, labels=labels)
+    resumed = bool(p.c.resumed) if p.co.ok else None
+    got = p.s.session.clientCertChain
+    labels.append("resumed" if resumed else "full")
+    if var == "control":
+        if not resumed or got is None:
+            return bad("positive-control-fails:ticket:" + v1,
+                       "resumed=%r chain=%r" % (resumed, got), labels=labels)
+        return good(nt=False, labels=labels)
+    if not resumed and got is not None:
+        return bad("identity-attributed-without-proof:declined-ticket:%s:%s"
+                   % (v1, var),
+                   "full handshake without a client certificate, yet the "
+                   "server records the client chain of the declined ticket",
+                   labels=labels)
+    return good(labels=labels)
+
+
 # ------------------------------------------------------------- Finished ---
 def check_finished(case):
     ver, side = case["ver"], case["side"]
@@ -562,7 +733,8 @@ def explicit(tier, seed):
     for ver in ("tls10", "tls12"):
         for cert in (False, True):
             for corr in ("none", "wrong_password", "unknown_user", "a_zero",
-                         "a_n", "a_2n"):
+                         "a_n", "a_2n", "atk_a_zero", "atk_a_n",
+                         "atk_a_2n"):
                 yield {"k": "srp", "ver": ver, "corr": corr, "cert": cert}
     for h in ("sha256", "sha384"):
         for corr in ("none", "wrong_secret", "flip_binder",
@@ -576,13 +748,18 @@ def explicit(tier, seed):
                        "pos": pos}
         for match in (True, False):
             yield {"k": "checker", "ver": ver, "match": match}
+    for v1 in ("tls13", "tls12"):
+        for var in ("control", "hash", "expired", "version", "other_key"):
+            yield {"k": "ticket", "var": var, "v1": v1}
+            if var in ("expired", "other_key"):
+                yield {"k": "ticket", "var": var, "v1": v1, "pin": True}
 
 
 @st.composite
 def cases(draw, tier):
     site, ver, key = draw(st.sampled_from(SITES))
     return {"k": "sig", "site": site, "ver": ver, "key": key,
-            "corr": draw(st.sampled_from(CORR[1:6])),
+            "corr": draw(st.sampled_from(CORR[1:6] + CORR[7:])),
             "seed": draw(st.integers(0, 10 ** 6))}
 
 
